@@ -66,7 +66,7 @@ def build_matrix(case):
     M = (M + M.T) / 2
   if cls == 'asym' and d > 1:
     M = M.copy()
-    M[0, 1] += (1e-3 + case['frac']) * max(np.abs(M).max(), 1e-300)
+    M[0, 1] += max((1e-3 + case['frac']) * np.abs(M).max(), 1e-5)   # far above np.allclose's rtol 1e-5 / atol 1e-8
   return M, tol_abs
 
 
@@ -84,7 +84,9 @@ def check_convert(case, stats):
     stats.case(case, True, ['convert', 'asym'])
     return
   w = np.linalg.eigvalsh(M)
-  lmin, lmax = float(w.min()), float(max(np.abs(w).max(), 1e-300))
+  lmin, lmax = float(w.min()), float(np.abs(w).max())
+  if lmax < 1e-250:
+    raise Discard('spectrum in the subnormal range')
   tol_eff = tol_abs if tol_abs is not None else lmax * d * EPS
   r = call('C20/convert/' + case['cls'], U.components_from_metric, *args, expect=(ValueError,))
   clause = 'boundary'
